@@ -141,20 +141,7 @@ def check(ctx):
                     fid.split("::")[-2] + "-panic-only-if-canceled", "%s raises the Cancel panic only for ParkError::Canceled (a timeout returns false)" % fid,
                     pred_label="edge `err == Canceled`")
     # ---- no poisoning by a cancel unwind
-    FD = "may::sync::poison::Flag::done"
-    PST = atomic("store", "may::sync::poison::Flag.failed")
-    ctx.guarded(FD, PST, call_true(r"std::thread::panicking"), "poison-only-when-panicking", "a guard poisons only when dropped by a panic", pred_label="edge `thread::panicking()` is true")
-    def not_canceled_edge(a):
-        if a.kind != "truth" or a.truth is not False: return False
-        o = a.origin
-        alts = [simplify(x) for x in o[2]] if o[0] == "phi" else [o]
-        return any(x[0] == "call" and x[2] == C + "::is_canceled" for x in alts)
-    ctx.guarded(FD, PST, not_canceled_edge, "no-poison-on-cancel", "a guard dropped by a cancellation unwind releases without poisoning", pred_label="edge `is_canceled` is false")
-    ctx.must_follow(FD, None, Call(re.escape(C) + "::is_canceled", transitive=False), "coroutine-consults-cancel", "in coroutine context the cancel state is consulted before poisoning",
-                    edge=call_true(r"may::coroutine_impl::is_coroutine"), edge_label="edge `is_coroutine()` is true", exits=lambda g: ctx.an.sites(g, PST, "must"))
-    def guard_not_panicking(a):
-        return a.kind == "truth" and a.truth is False and all_fields(a.origin)[-1:] == ["may::sync::poison::Guard.panicking"]
-    ctx.guarded(FD, PST, guard_not_panicking, "poison-only-new-panic", "no poisoning when the guard was created while already panicking", pred_label="edge `guard.panicking` is false")
+    shared.poison_rules(ctx)
     # ---- a Park that never reached the kernel must be droppable: wait_kernel starts false
     for adt, ctor in (("may::park::Park", "may::park::Park::new"), ("may::sync::spsc::Park", "may::sync::spsc::Park::new")):
         f = ctx.fn("R-PAIR", ctor, "wait-kernel-starts-false")
